@@ -28,7 +28,7 @@ def rules_v(ver, names=("pa", "pb", "pc"), kinds=None, sals=None):
 
 def req_step(rid, method, names, hold_at="", **kw):
     st = {"op": "req", "id": rid, "method": method, "b": True, "hold_at": hold_at, "names": list(names), "n": 1, "m": max(1, len(names) - 1),
-          "layers": [list(names[:1]), list(names[1:])], "extra": ["K%d" % rid]}
+          "layers": [list(names[:1]), list(names[1:])], "extra": ["K%d" % rid], "flag": (rid * 7919) % 3 != 0}
     st.update(kw)
     return st
 
@@ -134,6 +134,8 @@ def overlap_scenario(sid, mn, mx, rng, faulty=False, model=None, rounds=2):
     kinds = {}
     if faulty:
         kinds = {"pb": rng.choice(["fail", "panic"]), "pc": rng.choice(["fail", "panic", "ret"])}
+    elif rng.random() < 0.6:
+        kinds = {"pa": "cond", "pb": "cond", "pc": "cond"}     # requests without the flag get an empty result map
     rules = rules_v(1, kinds=kinds)
     names = [r["name"] for r in rules]
     sc = {"id": sid, "min": mn, "max": mx, "model": model or rng.choice([1, 2, 3, 4]), "rules": rules, "steps": [], "notes": []}
@@ -263,6 +265,8 @@ def random_walk_scenario(sid, mn, mx, rng, steps=14, faulty=False, model=None):
     kinds = {}
     if faulty:
         kinds = {"pb": rng.choice(["fail", "panic"]), "pc": rng.choice(["fail", "panic", "ret"])}
+    elif rng.random() < 0.6:
+        kinds = {"pa": "cond", "pb": "cond", "pc": "cond"}
     rules = rules_v(1, kinds=kinds)
     names = [r["name"] for r in rules]
     sc = {"id": sid, "min": mn, "max": mx, "model": model or rng.choice([1, 2, 3, 4]), "rules": rules, "steps": []}
